@@ -50,7 +50,8 @@ def rand_props(rng, d):
         elif r < 0.75:
             props[kind] = rng.choice(["missing.png", "nofile.ogg"])
         elif r < 0.85:
-            props[kind] = rng.choice(["sub/inner.png", "SUB/INNER.PNG", "sub/Inner Song.ogg", "nosuchdir/x.png", "sub/missing.png"])
+            props[kind] = rng.choice(["sub/inner.png", "SUB/INNER.PNG", "sub/Inner Song.ogg", "nosuchdir/x.png", "sub/missing.png",
+                                      "sub/INNER.PNG", "sub/Inner.Png", "sub/inner song.OGG", "./sub/INNER.png", "sub/../sub/Inner.png"])
         elif names:
             n = rng.choice(names)
             props[kind] = rng.choice(["./" + n, "sub/../" + n, "../song/" + n])
@@ -63,6 +64,9 @@ def corpus():
     out.append({"fs": "native", "dir": d, "props": {"BACKGROUND": "sub/../shared-bg.png"}, "pack": {"inside": [], "beside": []}})
     out.append({"fs": "mem", "dir": d, "props": {"BACKGROUND": "./shared-bg.png", "BANNER": "missing.png"}, "pack": {"inside": ["b.jpg", "a.png", "c.PNG"], "beside": ["pack.png"]}})
     out.append({"fs": "native", "dir": {"song.sm": "", "x.png": "78"}, "props": {}, "pack": {"inside": [], "beside": ["pack.jpeg", "pack.gif", "other.png"]}})
+    sub = {"song.sm": "", "bg.png": "78", "sub": {"inner.png": "78", "Inner Song.ogg": "78"}}
+    out.append({"fs": "native", "dir": sub, "props": {"BANNER": "sub/INNER.PNG", "MUSIC": "sub/inner song.OGG"}, "pack": {"inside": [], "beside": []}})     # other case inside a sub-directory
+    out.append({"fs": "mem", "dir": sub, "props": {"BACKGROUND": "sub/Inner.Png"}, "pack": {"inside": [], "beside": []}})
     return out
 
 
